@@ -78,6 +78,11 @@ package prelude
 //@   modifies nothing
 //@   ensures err != nil ==> result != nil
 
+//@ func Wrapf
+//@   trusted
+//@   modifies nothing
+//@   ensures (err != nil) == (result != nil)
+
 //@ package io
 
 // io.Reader: 0 <= n <= len(p); the bytes land in p (frame: only p's elements).
@@ -159,3 +164,14 @@ package prelude
 //@   trusted
 //@   pure
 //@   requires re != nil
+
+//@ package reflect
+
+// TypeOf(nil) is the nil Type.
+//@ func TypeOf
+//@   trusted
+//@   pure
+//@   ensures (i != nil) == (result != nil)
+//@ func (Type).Kind
+//@   trusted
+//@   pure
